@@ -9,6 +9,7 @@ import (
 	"os"
 	"strings"
 
+	"verifharness/c05frame"
 	"verifharness/c05ts"
 	"verifharness/vh"
 )
@@ -21,6 +22,7 @@ type part struct {
 
 var parts = []part{
 	{"ts", c05ts.Exec, c05ts.Gen},
+	{"frame", c05frame.Exec, c05frame.Gen},
 }
 
 func exec(op string) string {
@@ -61,5 +63,5 @@ func main() {
 			out.Case(op, impl, class, nontrivial)
 		})
 	}
-	out.Close(map[string]interface{}{"crash_answers_by_site": known})
+	out.Close(map[string]interface{}{"crash_answers_by_site": known, "skipped_huge_pk_count": c05frame.Skipped})
 }
